@@ -6,6 +6,7 @@ cd /repo || exit 2
 if ! git diff --quiet; then echo "/repo dirty"; exit 2; fi
 git apply "$patch" || { echo "patch does not apply"; exit 2; }
 trap 'git -C /repo checkout -- . ' EXIT
-for id in "$@"; do
+ids="$*"; [ "$ids" = "ALL" ] && ids=$(python3 -c "import json; print(' '.join(c['property_id'] for c in json.load(open('/verif/MANIFEST.json'))['checks']))")
+for id in $ids; do
   ( cd /verif && timeout 600 ./ovv check "$id" ${TIER:+--tier $TIER} 2>&1 | grep -E "^(VIOLATION|KNOWN|C[0-9]+ tier|violation class|INFRA|GATE)" | head -8 )
 done
